@@ -3,6 +3,7 @@ Relative Components Analysis (RCA)
 """
 
 import numpy as np
+import scipy.linalg
 import warnings
 from sklearn.base import TransformerMixin
 
@@ -112,8 +113,10 @@ class RCA(MahalanobisMixin, TransformerMixin):
     # Fisher Linear Discriminant projection
     if dim < X.shape[1]:
       total_cov = np.cov(X[chunk_mask], rowvar=0)
-      tmp = np.linalg.lstsq(total_cov, inner_cov, rcond=None)[0]
-      vals, vecs = np.linalg.eig(tmp)
+      # inner_cov v = val * total_cov v is a symmetric-definite problem: solve
+      # it as such, so that eigenpairs are real (a general eigensolver on
+      # total_cov^-1 inner_cov returns complex arrays on rounding noise)
+      vals, vecs = scipy.linalg.eigh(inner_cov, total_cov)
       inds = np.argsort(vals)[:dim]
       A = vecs[:, inds]
       inner_cov = np.atleast_2d(A.T.dot(inner_cov).dot(A))
